@@ -149,6 +149,12 @@ func (e *Engine) modelCall(s *State, fr *Frame, dst *ssa.Call, key string, f *ss
 	case "bytes.Equal":
 		e.trustModel(key)
 		return e.seqEqual(s, args[0].(Term), args[1].(Term), types.Typ[types.Uint8]), nil, true, false
+	case "bytes.HasPrefix":
+		e.trustModel(key)
+		a, p := args[0].(Term), args[1].(Term)
+		pl := App("s-len", SInt, p)
+		pre := App("mk-slice", SSlice, App("s-base", SInt, a), App("s-off", SInt, a), pl, pl)
+		return And(Ge(App("s-len", SInt, a), pl), e.seqEqual(s, pre, p, types.Typ[types.Uint8])), nil, true, false
 	case "strings.HasPrefix":
 		return App("str.prefixof", SBool, args[1].(Term), args[0].(Term)), nil, true, false
 	case "strings.HasSuffix":
@@ -217,9 +223,29 @@ func (e *Engine) seqEqual(s *State, a, b Term, elem types.Type) Term {
 	key, sort := e.memKey(elem)
 	h := s.heapGet(key, sort)
 	la, lb := App("s-len", SInt, a), App("s-len", SInt, b)
-	body := fmt.Sprintf("(forall ((k Int)) (=> (and (<= 0 k) (< k %s)) (= (select (select %s (s-base %s)) (+ (s-off %s) k)) (select (select %s (s-base %s)) (+ (s-off %s) k)))))",
-		la.S, h.S, a.S, a.S, h.S, b.S, b.S)
+	// literal length on either side: expand elementwise (no quantifier)
+	for _, l := range []Term{la, lb} {
+		if n, ok := litValue(l); ok && n.IsInt64() && n.Int64() >= 0 && n.Int64() <= 64 {
+			arrA, offA := Select(h, App("s-base", SInt, a)), App("s-off", SInt, a)
+			arrB, offB := Select(h, App("s-base", SInt, b)), App("s-off", SInt, b)
+			cs := []Term{Eq(la, lb)}
+			for i := int64(0); i < n.Int64(); i++ {
+				cs = append(cs, Eq(Select(arrA, Add(offA, IntLit(i))), Select(arrB, Add(offB, IntLit(i)))))
+			}
+			return e.u.Define("seqeq", And(cs...))
+		}
+	}
+	body := fmt.Sprintf("(forall ((k Int)) (=> (and (<= 0 k) (< k %s)) (= (select (select %s %s) (+ %s k)) (select (select %s %s) (+ %s k)))))",
+		la.S, h.S, App("s-base", SInt, a).S, App("s-off", SInt, a).S, h.S, App("s-base", SInt, b).S, App("s-off", SInt, b).S)
 	return e.u.Define("seqeq", And(Eq(la, lb), Term{body, SBool}))
+}
+
+// litSmall returns the value of a literal term in [0, 64].
+func litSmall(t Term) (int64, bool) {
+	if n, ok := litValue(t); ok && n.IsInt64() && n.Int64() >= 0 && n.Int64() <= 64 {
+		return n.Int64(), true
+	}
+	return 0, false
 }
 
 // lockOp tracks mutexes held on the current path (used by lockset obligations).
